@@ -10,6 +10,7 @@ The scenario is chosen from the obligation that was refuted:
   *a_loss_record_is_never_replaced         the owner exits, then other workers are recycled every 6 s
 """
 import json
+import os
 import sys
 
 import billiard.pool as pool
@@ -133,8 +134,8 @@ def main():
     data = json.load(open(sys.argv[1]))
     ob = data['obligation']
     print('replay of %s / %s' % (data['function'], ob))
-    if 'bounded_cross_check' in ob:
-        # thorough tier: every scenario group
+    if 'bounded_cross_check' in ob or os.environ.get('PYVC_SEARCH'):
+        # thorough tier, or a proof step that no longer goes through: every scenario group
         bad = []
         known = data.get('known_finding_obligations', [])
         if known:
